@@ -37,7 +37,7 @@ def dcf_1d(traj: torch.Tensor) -> torch.Tensor:
     # we assign the point at x0 the area (x1 - x0) / 2 + (x1 - x0) / 2, and
     # we assign the point at xN the area (xN - xN-1) / 2 + (xN - xN-1) / 2.
 
-    kernel = torch.tensor([-1 / 2, 0, 1 / 2], dtype=torch.float32, device=traj.device).reshape(1, 1, 3)
+    kernel = torch.tensor([-1 / 2, 0, 1 / 2], dtype=traj.dtype, device=traj.device).reshape(1, 1, 3)
 
     if (elements := len(traj_sorted)) >= 3:
         central_diff = torch.nn.functional.conv1d(traj_sorted[None, None, :], kernel)[0, 0]
